@@ -448,7 +448,7 @@ Lemma finish_spec : forall f1 r first last more pl r' o f' out,
   FInv f' /\
   f_high f' = f_high f1 /\ f_low f' = f_low f1 /\ f_timeout f' = f_timeout f1 /\
   f_size f' <= f_size f1 + p_consumed o /\
-  (forall x, In x (f_rs f') -> x = r' \/ In x (f_rs f1)) /\
+  (forall x, In x (f_rs f') -> (x = r' /\ p_done o = false /\ p_err o = false) \/ In x (f_rs f1)) /\
   (* after the eviction walk: at most lowLimit bytes are kept, or nothing at all *)
   (f_size f' <= f_high f' \/ f_size f' <= f_low f' \/ f_rs f' = []) /\
   (* no eviction when the high limit is not exceeded *)
@@ -481,7 +481,7 @@ Proof.
   set (f4 := if p_done o || p_err o then release f3 r' else f3) in *.
   assert (I4 : FInv f4 /\ f_high f4 = f_high f1 /\ f_low f4 = f_low f1 /\ f_timeout f4 = f_timeout f1 /\
                f_size f4 <= f_size f1 + p_consumed o /\
-               (forall x, In x (f_rs f4) -> x = r' \/ In x (f_rs f1)) /\
+               (forall x, In x (f_rs f4) -> (x = r' /\ p_done o = false /\ p_err o = false) \/ In x (f_rs f1)) /\
                (forall j, j <> r_id r -> lookup j (f_rs f4) = lookup j (f_rs f1)) /\
                lookup (r_id r) (f_rs f4) = if p_done o || p_err o then None else Some r').
   { unfold f4. destruct (p_done o || p_err o) eqn:Ede.
@@ -508,7 +508,12 @@ Proof.
       + rewrite (remove_id_sum _ _ _ Lk3). lia.
       + rewrite Elo3. apply (fi_low _ I).
       + repeat split; auto; try lia.
-        * intros x Hx. apply In3. eapply remove_id_in; eauto.
+        * intros x Hx. right.
+          assert (Hx3 : In x (f_rs f3)) by (eapply remove_id_in; eauto).
+          destruct (In3 x Hx3) as [->|Hx1]; [|auto].
+          exfalso. assert (Hn : lookup (r_id r') (remove_id (r_id r') (f_rs f3)) = None)
+            by (apply remove_id_lookup_same; auto).
+          apply lookup_none in Hn. apply Hn. apply in_map. auto.
         * intros j Hj. rewrite remove_id_lookup_other by congruence. auto.
         * rewrite <- Pid. apply remove_id_lookup_same. auto.
     - apply orb_false_iff in Ede. destruct Ede as [Ed Ee].
@@ -517,7 +522,9 @@ Proof.
       + rewrite Forall_forall. intros x Hx. destruct (In3 x Hx) as [->|Hx1]; auto.
         pose proof (fi_wf _ I) as Hwf. rewrite Forall_forall in Hwf. auto.
       + rewrite Elo3. apply (fi_low _ I).
-      + repeat split; auto; try lia. rewrite <- Pid. auto. }
+      + repeat split; auto; try lia.
+        * intros x Hx. destruct (In3 x Hx) as [->|Hx1]; auto.
+        * rewrite <- Pid. auto. }
   destruct I4 as (I4 & Eh4 & El4 & Et4 & Sz4 & In4 & Lo4 & Lk4).
   destruct (Z.ltb_spec (f_high f4) (f_size f4)) as [Hev|Hnev].
   - (* eviction *)
